@@ -499,6 +499,57 @@ where
     }
 }
 
+#[cfg(futures_intrusive_verif)]
+impl<MutexType: RawMutex, T, A> GenericChannel<MutexType, T, A>
+where
+    A: RingBuf<Item = T>,
+{
+    /// Reports the internal state to the external verification harness
+    pub fn verif_snapshot(&self, f: &mut dyn FnMut(crate::verif::Item<'_>)) {
+        use crate::verif::{list_links, Entry, Item};
+        let state = self.inner.lock();
+        f(Item::Scalar("is_closed", state.is_closed as u64));
+        f(Item::Scalar("buffer_len", state.buffer.len() as u64));
+        f(Item::Scalar("buffer_capacity", state.buffer.capacity() as u64));
+        let mut recv = |queue: u8, node: &ListNode<RecvWaitQueueEntry>| {
+            f(Item::Entry(Entry {
+                queue,
+                addr: node as *const _ as usize,
+                state: match node.state {
+                    RecvPollState::Unregistered => 0,
+                    RecvPollState::Registered => 1,
+                    RecvPollState::Notified => 2,
+                },
+                waker: node.task.as_ref(),
+                num: 0,
+                links: list_links(node),
+            }))
+        };
+        state.receive_waiters.verif_for_each(&mut |node| recv(0, node));
+        state
+            .receive_waiters
+            .verif_for_each_rev(&mut |node| recv(0x80, node));
+        let mut send = |queue: u8, node: &ListNode<SendWaitQueueEntry<T>>| {
+            f(Item::Entry(Entry {
+                queue,
+                addr: node as *const _ as usize,
+                state: match node.state {
+                    SendPollState::Unregistered => 0,
+                    SendPollState::Registered => 1,
+                    SendPollState::SendComplete => 3,
+                },
+                waker: node.task.as_ref(),
+                num: node.value.is_some() as u64,
+                links: list_links(node),
+            }))
+        };
+        state.send_waiters.verif_for_each(&mut |node| send(1, node));
+        state
+            .send_waiters
+            .verif_for_each_rev(&mut |node| send(0x81, node));
+    }
+}
+
 impl<MutexType: RawMutex, T, A> ChannelSendAccess<T>
     for GenericChannel<MutexType, T, A>
 where
@@ -627,6 +678,21 @@ where
             // Channel was terminated.
             None => Poll::Ready(None),
         }
+    }
+}
+
+#[cfg(futures_intrusive_verif)]
+impl<'a, MutexType, T, A> ChannelStream<'a, MutexType, T, A>
+where
+    A: RingBuf<Item = T>,
+    MutexType: RawMutex,
+{
+    /// Address range of the embedded receive future, if one exists
+    pub fn verif_future_range(&self) -> Option<(usize, usize)> {
+        self.future.as_ref().map(|fut| {
+            let start = fut as *const _ as usize;
+            (start, start + core::mem::size_of_val(fut))
+        })
     }
 }
 
@@ -988,6 +1054,75 @@ mod if_alloc {
         ///
         /// Not driving the `SharedStream` to completion after it has been polled
         /// might lead to lost wakeup notifications.
+        #[cfg(futures_intrusive_verif)]
+        impl<MutexType, T, A> GenericSender<MutexType, T, A>
+        where
+            MutexType: RawMutex,
+            A: RingBuf<Item = T>,
+        {
+            /// Reports the internal state to the external verification harness
+            pub fn verif_snapshot(
+                &self,
+                f: &mut dyn FnMut(crate::verif::Item<'_>),
+            ) {
+                f(crate::verif::Item::Scalar(
+                    "senders",
+                    self.inner.senders.load(Ordering::Relaxed) as u64,
+                ));
+                f(crate::verif::Item::Scalar(
+                    "receivers",
+                    self.inner.receivers.load(Ordering::Relaxed) as u64,
+                ));
+                self.inner.channel.verif_snapshot(f)
+            }
+        }
+
+        #[cfg(futures_intrusive_verif)]
+        impl<MutexType, T, A> GenericReceiver<MutexType, T, A>
+        where
+            MutexType: RawMutex,
+            A: RingBuf<Item = T>,
+        {
+            /// Reports the internal state to the external verification harness
+            pub fn verif_snapshot(
+                &self,
+                f: &mut dyn FnMut(crate::verif::Item<'_>),
+            ) {
+                f(crate::verif::Item::Scalar(
+                    "senders",
+                    self.inner.senders.load(Ordering::Relaxed) as u64,
+                ));
+                f(crate::verif::Item::Scalar(
+                    "receivers",
+                    self.inner.receivers.load(Ordering::Relaxed) as u64,
+                ));
+                self.inner.channel.verif_snapshot(f)
+            }
+        }
+
+        #[cfg(futures_intrusive_verif)]
+        impl<MutexType, T, A> SharedStream<MutexType, T, A>
+        where
+            MutexType: 'static + RawMutex,
+            A: 'static + RingBuf<Item = T>,
+        {
+            /// Reports the internal state to the external verification harness
+            pub fn verif_snapshot(
+                &self,
+                f: &mut dyn FnMut(crate::verif::Item<'_>),
+            ) {
+                self.receiver.verif_snapshot(f)
+            }
+
+            /// Address range of the embedded receive future, if one exists
+            pub fn verif_future_range(&self) -> Option<(usize, usize)> {
+                self.future.as_ref().map(|fut| {
+                    let start = fut as *const _ as usize;
+                    (start, start + core::mem::size_of_val(fut))
+                })
+            }
+        }
+
         #[derive(Debug)]
         pub struct SharedStream<MutexType, T, A>
         where
